@@ -1381,9 +1381,10 @@ package flags
 //@   loop 5 decreases chainLen(root) - cnt_5
 //@   loop 6 invariant[C17] (c == p.Command ==> !printcmd && !aligninfo.indent) && (c != p.Command ==> printcmd || aligninfo.indent)
 //@   loop 7 invariant[C17] (c == p.Command ==> !printcmd && !aligninfo.indent) && (c != p.Command ==> printcmd || aligninfo.indent)
-//@   loop 8 invariant[C17] forall(a, 0, len(args), exists(i, 0, idx_8, args[a] == c.args[i]))
+//@   loop 8 invariant[C17] use(eag_elem, root, cnt_5, 0) && use(eg_nonempty, c.Group) && forall(a, 0, len(args), argWidth(args[a]) + ite(c != p.Command, 4, 0) <= aligninfo.maxLongLen)
+//@   loop 9 invariant[C17] forall(a, 0, len(args), argWidth(args[a]) + ite(c != p.Command, 4, 0) <= aligninfo.maxLongLen)
 //@   at[C17] call Parser.writeHelpOption #1: use(eag_elem, root, cnt_5, idx_6)
-//@   at[C17] call strings.Repeat #2: use(eag_elem, root, cnt_5, 0) && use(eg_nonempty, c.Group) && use(argWidth_def, arg) && use(rc_sub, strings.Repeat(" ", paddingBeforeOption), arg.Name) && use(rc_sub, strings.Repeat(" ", paddingBeforeOption) + arg.Name, ":")
+//@   at[C17] call strings.Repeat #2: use(argWidth_def, arg) && use(rc_sub, strings.Repeat(" ", paddingBeforeOption), arg.Name) && use(rc_sub, strings.Repeat(" ", paddingBeforeOption) + arg.Name, ":")
 //@   loop 6 invariant unfold(hRows(p, c, idx_6 + 1)) && unfold(hRows(p, c, 0)) && ncalls(Parser.writeHelpOption) == w0 + hChain(p, cnt_5) + hRows(p, c, idx_6)
 //@   loop 6 invariant forall(k, w0, ncalls(Parser.writeHelpOption), showable(callarg(Parser.writeHelpOption, k, 2)))
 //@   loop 7 invariant unfold(nShow(grp.options, idx_7 + 1)) && unfold(nShow(grp.options, 0)) && !helpSkip(p, c, grp) && ncalls(Parser.writeHelpOption) == w0 + hChain(p, cnt_5) + hRows(p, c, idx_6) + nShow(grp.options, idx_7)
